@@ -683,13 +683,70 @@ func (g *pgen) templates() {
 	}
 }
 
+// plantObjectChain makes sure some step looks into a JSON object captured by an earlier
+// step (the way a response decides whether a later template can be executed).
+func (g *pgen) plantObjectChain() (capturer string) {
+	t := g.t
+	type pair struct{ q, r string }
+	var pairs []pair
+	for _, r := range g.p.Requests {
+		for _, qn := range sortedKeys(g.before[r.Name]) {
+			q := g.p.Request(qn)
+			ok := !q.HasCaptureExpr(scengen.PostJsonpath, "$.obj.x")
+			for _, p := range q.Posts {
+				if p.Kind == scengen.PostXpath {
+					ok = false
+				}
+			}
+			if ok {
+				pairs = append(pairs, pair{qn, r.Name})
+			}
+		}
+	}
+	if len(pairs) == 0 {
+		return ""
+	}
+	pr := pairs[uni(t, 0, len(pairs)-1, "plantPair")]
+	q, r := g.p.Request(pr.q), g.p.Request(pr.r)
+	q.RespKind = "json"
+	if !q.HasCaptureExpr(scengen.PostJsonpath, "$.obj") {
+		added := false
+		for i := range q.Posts {
+			if q.Posts[i].Kind == scengen.PostJsonpath {
+				q.Posts[i].Map = append(q.Posts[i].Map, si.PostMap{Var: "jo", Expr: "$.obj"})
+				added = true
+				break
+			}
+		}
+		if !added {
+			q.Posts = append(q.Posts, si.Post{Kind: scengen.PostJsonpath, Map: []si.PostMap{{Var: "jo", Expr: "$.obj"}}})
+		}
+	}
+	name := "X-Obj-" + q.Name
+	for _, h := range r.Headers {
+		if h.Name == name {
+			return q.Name
+		}
+	}
+	r.Headers = append(r.Headers, si.Header{Name: name, Value: si.Tmpl{{Lit: "o="}, {Ref: &si.Ref{Kind: si.RefPostFld, Req: q.Name, Var: "jo", Field: "x"}}}})
+	return q.Name
+}
+
 func genProgram(t *rapid.T, concurrent bool) si.Program {
+	p, _ := genProgramPlanted(t, concurrent)
+	return p
+}
+
+func genProgramPlanted(t *rapid.T, concurrent bool) (si.Program, string) {
 	g := &pgen{t: t, concurrent: concurrent}
 	g.sources()
 	g.skeleton()
 	g.posts()
 	g.pres()
 	g.templates()
+	if chance(t, 35, "plantObject") {
+		return g.p, g.plantObjectChain()
+	}
 	// drop definitions no scenario uses? keep them: unused definitions are legal and must not matter
 	return g.p
 }
@@ -721,7 +778,8 @@ func planRun(p *si.Program, cycles int) []string {
 var faultStatuses = []int{201, 302, 400, 404, 500, 503}
 
 func genCase(t *rapid.T) Case {
-	c := Case{Prog: genProgram(t, false), Instances: 1}
+	prog, planted := genProgramPlanted(t, false)
+	c := Case{Prog: prog, Instances: 1}
 	_, ring := c.Prog.Cycle()
 	c.Cycles = rapid.IntRange(1, 3).Draw(t, "cycles")
 	if maxC := 24 / ring; c.Cycles > maxC {
@@ -757,11 +815,25 @@ func genCase(t *rapid.T) Case {
 		}
 	}
 	nf := []int{0, 1, 1, 1, 2, 2, 3}[uni(t, 0, 6, "nFaults")]
+	if planted != "" && nf == 0 {
+		nf = 1
+	}
 	at := map[int]bool{}
 	hasClose := false
 	for i := 0; i < nf && len(defs) > 0; i++ {
 		var f FaultAt
-		if len(effective) > 0 && chance(t, 55, "effectiveFault") {
+		if i == 0 && planted != "" && chance(t, 60, "plantedFault") {
+			var ns []int
+			for n, name := range defs {
+				if name == planted {
+					ns = append(ns, n)
+				}
+			}
+			if len(ns) == 0 {
+				continue
+			}
+			f = FaultAt{N: ns[uni(t, 0, len(ns)-1, "plantedAt")], Kind: si.FaultObjString}
+		} else if len(effective) > 0 && chance(t, 55, "effectiveFault") {
 			e := effective[uni(t, 0, len(effective)-1, "effectiveAt")]
 			f = FaultAt{N: e.n, Kind: e.kind}
 		} else {
